@@ -6,6 +6,7 @@ from engine import facts
 from engine.astutil import src, call_name, dotted, Guards, compare_parts, names_in, enclosing_map
 from engine.flow import Flow, _walk_no_nested
 from engine.interp import (Const, Sym, SymStr, ListV, TupleV, ValueV, CtxV, DocV, TypeV, FuncV, NONE, Undecided, prov)
+from engine.astutil import compare_parts as _cp_unused
 from engine.loader import AnalysisError
 from . import shape as S
 from .c08 import string_printer_paths, str_prims, STRATEGIES
@@ -80,18 +81,21 @@ def run(repo, rep):
     n = 0
     if ev:
         e = ev[0]
-        sc = [c for c in ast.walk(e.node) if isinstance(c, ast.Call) and call_name(c) == 'str_to_lines']
-        lc = [c for c in ast.walk(e.node) if isinstance(c, ast.Call) and call_name(c) == 'pretty_single_line_str'
-              and any(k.arg == 'use_quote' for k in c.keywords)]
+        from engine.astutil import bind_args
+        stl_f = m.funcs.get('str_to_lines')
+        sls_f = m.funcs.get('pretty_single_line_str')
+        sc = [bind_args(c, stl_f) for c in ast.walk(ps.node) if isinstance(c, ast.Call) and call_name(c) == 'str_to_lines']
+        lc = [bind_args(c, sls_f) for c in ast.walk(ps.node) if isinstance(c, ast.Call) and call_name(c) == 'pretty_single_line_str']
+        lc = [b for b in lc if 'use_quote' in b]
         n += 1
-        q1 = {src(k.value) for c in sc for k in c.keywords if k.arg == 'use_quote'}
-        q2 = {src(k.value) for c in lc for k in c.keywords if k.arg == 'use_quote'}
+        q1 = {src(b['use_quote']) for b in sc if 'use_quote' in b}
+        q2 = {src(b['use_quote']) for b in lc}
         rep.check(len(sc) == 1 and q1 == q2 and len(q1) == 1, 'C02.d', 'evaluator:same-quote-for-splitter-and-builder', e.where,
                   'splitter measures with the quote the builder prints with',
                   'the splitter is given use_quote=%s but the pieces are printed with use_quote=%s: escaped lengths no longer match'
                   % (sorted(q1), sorted(q2)), nontrivial=True)
         n += 1
-        sarg = {src(k.value) for c in sc for k in c.keywords if k.arg == 's'}
+        sarg = {src(b['s']) for b in sc if 's' in b}
         rep.check(sarg == {ps.params[0]}, 'C02.d', 'evaluator:splits-the-value', e.where, 'the splitter is given the value itself',
                   'str_to_lines is called with s=%s' % sorted(sarg))
     rep.floor('C02.d:syntactic', n, 2)
@@ -109,10 +113,14 @@ def run(repo, rep):
     if ev:
         e = ev[0]
         defs = {k_: v[0] for k_, v in single_defs(e.node).items() if len(v) == 1}
-        for c in ast.walk(e.node):
+        from engine.astutil import bind_args
+        for c in ast.walk(ps.node):
             if isinstance(c, ast.Call) and call_name(c) == 'str_to_lines':
-                kw = {k_.arg: k_.value for k_ in c.keywords}
-                ml = kw.get('max_len', c.args[0] if c.args else None)
+                ml = bind_args(c, m.funcs['str_to_lines']).get('max_len')
+                for fx in [x for x in m.funcs.values() if x.parent is ps or (x.parent is not None and x.parent.parent is ps)]:
+                    for k_, v_ in single_defs(fx.node).items():
+                        if len(v_) == 1:
+                            defs.setdefault(k_, v_[0])
                 n += 1
                 try:
                     lb = _lower_bound(form(_fold_len(ml, defs)))
@@ -187,7 +195,8 @@ def _splitter(repo, rep):
     f = m.funcs.get('str_to_lines')
     if f is None:
         raise AnalysisError('str_to_lines vanished')
-    node = f.node
+    from engine.astutil import expand_ifexp
+    node = expand_ifexp(f.node)
     # roles ---------------------------------------------------------------
     held = flagv = it_name = None
     for s in ast.walk(node):
@@ -379,13 +388,29 @@ def _splitter(repo, rep):
                 ok = any((not ff.pol) and ff.text == 'not %s' % held for ff in fs) or any(ff.pol and ff.text == held for ff in fs) or \
                     _after_nonempty_guard(node, s, held)
             elif line in t:
-                ok = any(ff.pol and (ff.text == line or ff.text.replace(' ', '') in ('len(%s)>1' % line, 'len(%s)>0' % line)) for ff in fs)
+                ok = any(_implies_nonempty(ff, line) for ff in fs)
             n += 1
             rep.check(ok, 'C02.c', 'str_to_lines:yield:%s' % t[:50], '%s:%d' % (f.module.relpath, s.lineno),
                       'yielded piece is known non-empty',
                       'str_to_lines yields %s without a dominating non-emptiness test (%s): an empty literal piece' % (t, g.texts(s)[-3:]),
                       nontrivial=True)
     rep.floor('C02.c', n, 5)
+
+
+def _implies_nonempty(ff, name):
+    """the dominating fact says that the list ``name`` has at least one element"""
+    if ff.text == name:
+        return ff.pol
+    if ff.text == 'not ' + name:
+        return not ff.pol
+    cp = compare_parts(ff.test, ff.pol)
+    if cp and src(cp[0]) == 'len(%s)' % name and isinstance(cp[2], ast.Constant) and isinstance(cp[2].value, int):
+        k = cp[2].value
+        return (cp[1] == '>' and k >= 0) or (cp[1] == '>=' and k >= 1) or (cp[1] == '==' and k >= 1) or (cp[1] == '!=' and k == 0)
+    if cp and src(cp[2]) == 'len(%s)' % name and isinstance(cp[0], ast.Constant) and isinstance(cp[0].value, int):
+        k = cp[0].value
+        return (cp[1] == '<' and k >= 0) or (cp[1] == '<=' and k >= 1)
+    return False
 
 
 def _after_nonempty_guard(fn, stmt, held):
@@ -585,33 +610,39 @@ def _highlight(repo, rep):
                 ok = False
     rep.check(ok, 'C02.h', 'STR_LITERAL_ESCAPES:one-capturing-group', m.relpath, 'escape pattern is one capturing group (split keeps the escapes)',
               'STR_LITERAL_ESCAPES is not a single capturing group around a non-empty expression: highlight_escapes would drop text', nontrivial=True)
-    loops = [l for l in ast.walk(f.node) if isinstance(l, ast.For)]
+    # semantic: interpret highlight_escapes on a split into three parts of unknown emptiness
     n += 1
-    good = False
-    why = 'no loop'
-    if len(loops) == 1 and isinstance(loops[0].target, ast.Tuple):
-        lp = loops[0]
-        part = lp.target.elts[0].id
-        it = lp.iter
-        zipped = isinstance(it, ast.Call) and call_name(it) == 'zip' and it.args and src(it.args[0]) == 'matches'
-        from engine.switch import enumerate_paths
-        paths = enumerate_paths(lp.body, '__none__', {})
-        good = zipped
-        for p in paths:
-            apps = [e for e in p.events if e[0] == 'call' and e[1].endswith('.append')]
-            skipped = any(pol and t == 'not %s' % part for t, pol in p.conds)
-            if skipped:
-                good &= not apps
-            else:
-                good &= len(apps) == 1 and apps[0][2] and apps[0][2][0].replace(' ', '').endswith(',%s)' % part) and apps[0][2][0].startswith('annotate(')
-        why = 'loop over %s' % src(it)
-    defs = {src(a_.targets[0]): src(a_.value) for a_ in ast.walk(f.node) if isinstance(a_, ast.Assign) and isinstance(a_.targets[0], ast.Name)}
-    good = good and defs.get('matches') == 'STR_LITERAL_ESCAPES.split(%s)' % f.params[0]
-    rets = [src(r.value) for r in ast.walk(f.node) if isinstance(r, ast.Return) and r.value is not None]
-    good = good and 'concat(docs)' in rets
+
+    def m_split(it_, obj, a_, k_, nd):
+        if prov(obj).startswith('re.compile'):
+            return ListV([SymStr('part%d' % i, nonempty=None) for i in range(3)])
+        return NotImplemented
+
+    def m_match(it_, obj, a_, k_, nd):
+        if prov(obj).startswith('re.compile'):
+            return Sym('match(%s)' % prov(a_[0]))
+        return NotImplemented
+    ith = S.interp(repo, 'builder', {'method:split': m_split, 'method:match': m_match})
+    good = True
+    why = ''
+    try:
+        prs = ith.explore(f, [SymStr('escaped-text', nonempty=True)], {})
+        rep.count(len(prs))
+        for pr in prs:
+            if pr.raised is not None or not isinstance(pr.value, DocV):
+                good, why = False, 'raises / returns no document'
+                break
+            want = ['part%d' % i for i in range(3) if dict(pr.facts).get('truthy(part%d)' % i, True)]
+            got = [a.prov for a in D.linearise(pr.value.t, 'break', lambda g_: 'break') if isinstance(a, D.Lit)]
+            if got != want:
+                good, why = False, 'for the non-empty parts %s the document contains %s' % (want, got)
+                break
+    except Undecided as e_:
+        good, why = False, 'not interpretable: %s' % e_
+    rets = []
     rep.check(good, 'C02.h', 'highlight_escapes:emits-every-part', f.where, 'every non-empty part annotated and emitted once, in order',
-              'highlight_escapes no longer emits every non-empty part of STR_LITERAL_ESCAPES.split(s) exactly once (%s; returns %s): characters '
-              'of the literal are lost or duplicated' % (why, rets), nontrivial=True)
+              'highlight_escapes no longer emits every non-empty part of STR_LITERAL_ESCAPES.split(s) exactly once (%s): characters '
+              'of the literal are lost or duplicated' % why, nontrivial=True)
     g = Guards(f.node)
     for r in ast.walk(f.node):
         if isinstance(r, ast.Return) and r.value is not None and src(r.value) == 'NIL':
